@@ -407,6 +407,13 @@ def _simulate(fi: FunctionInfo, ops: List[tuple], path) -> List[Tuple[bool, str,
             v = lets[sym]
             if isinstance(v, ast.Call) and call_name(v) == "index" and _is_self(v.func.value) and len(v.args) == 1:
                 return unparse(v.args[0])
+        # self[self.index(Y)] written directly
+        try:
+            v = ast.parse(sym, mode="eval").body
+            if isinstance(v, ast.Call) and call_name(v) == "index" and _is_self(v.func.value) and len(v.args) == 1:
+                return unparse(v.args[0])
+        except SyntaxError:
+            pass
         raise Undecided(f"list store at an index that is not self.index(<leader>): {sym}")
 
     # __init__: initialisation pattern
